@@ -168,6 +168,12 @@ EffTransfer(cf, st, d, to, a) ==
 IsSigned(op) == op.m \in {"delegateByMsg", "withdrawByMsg"}
 (* the whole authorisation rule of the signed-message variants *)
 ValidSigned(op, c) == op.md = c /\ op.signer = c /\ op.chain = "ours" /\ op.tamper = "none"
+(* c is the IMMEDIATE caller of the precompile frame.  The transaction origin carries no authority: when the
+   delegator (= signer) itself sends a transaction to a contract that CALLs / DELEGATECALLs / CALLCODEs the method
+   with the delegator's signed message, the caller is that contract and the message is forged like any other
+   relayed one (signed messages have no nonce: a contract could otherwise replay anything its user ever signed). *)
+RelayedByOrigin(op, c, o) ==
+  IsSigned(op) /\ c # o /\ op.md = o /\ op.signer = o /\ op.chain = "ours" /\ op.tamper = "none"
 
 Effect(cf, st, now, c, op) ==
   CASE op.m = "delegate"        -> MsgDelegate(cf, st, c, op.v, op.amt)
